@@ -119,6 +119,10 @@ func (pr *playerRunner) OnTableStateUpdated(fn func(*pokertable.Table)) error {
 
 func (pr *playerRunner) requestMove(gs *pokerface.GameState, playerIdx int) error {
 
+	// A new request supersedes the previous one: its thinking-time task must not fire any more
+	// (it would act on the old hand state, e.g. after the runner has been suspended meanwhile)
+	pr.timebank.Cancel()
+
 	// Do pass automatically
 	if gs.HasAction(playerIdx, "pass") {
 		return pr.actions.Pass()
